@@ -56,6 +56,9 @@ type InstCfg struct {
 	PromoteDur  Dur    `json:"promote_dur,omitempty"`
 	DemoteDur   Dur    `json:"demote_dur,omitempty"`
 	NoCallbacks bool   `json:"no_callbacks,omitempty"`
+	// OnDemoteAfter: 0 = OnDemote is registered before Start (like OnPromote); > 0 = it is
+	// registered only at that virtual time; < 0 = never (OnPromote alone is registered).
+	OnDemoteAfter Dur `json:"ondemote_after,omitempty"`
 }
 
 type StoreCfg struct {
